@@ -17,10 +17,12 @@ Fixpoint zl_eqb (a b : list Z) : bool :=
 
 Definition mismatch (c : case) : bool :=
   match c with
-  | WriteToCase pmtu m n dg rv intact ret
-  | WriteCase pmtu m n dg rv intact ret =>
+  | WriteToCase pmtu m n dg rv intact ret =>
       negb (zl_eqb (write_datagrams pmtu m n) dg && (ret =? n) && intact &&
-            zl_eqb rv (chunks (Z.to_nat n) n (max_payload pmtu m)))
+            zl_eqb rv (write_chunks n (max_payload pmtu m)))
+  | WriteCase pmtu m n dg rv intact ret =>      (* Read skips empty records *)
+      negb (zl_eqb (write_datagrams pmtu m n) dg && (ret =? n) && intact &&
+            zl_eqb rv (filter (fun c => 0 <? c) (write_chunks n (max_payload pmtu m))))
   | HsCase _ _ _ _ ok => negb ok
   | ExtraCase _ => true
   end.
@@ -32,7 +34,7 @@ Definition mismatch (c : case) : bool :=
 Definition spec_code (c : case) : N :=
   match c with
   | WriteToCase pmtu m n dg rv intact ret =>
-      if (n =? 0) && negb (zl_eqb dg [record_len m 0]) then 4%N          (* empty payload: no datagram (K5) *)
+      if (n =? 0) && negb (zl_eqb dg [record_len m 0] && zl_eqb rv [0]) then 4%N          (* empty payload: exactly one datagram, one empty ReadFrom *)
       else if (0 <? n) && (record_len m n <=? eff_pmtu pmtu) && (n <=? max_plaintext) &&
               negb (zl_eqb dg [record_len m n] && zl_eqb rv [n]) then 1%N
       else if existsb (fun d => eff_pmtu pmtu <? d) dg then 2%N
